@@ -53,6 +53,15 @@ def gen_pair(rng, i):
     return dict(id="p%d" % i, kind=kind, toks=toks, rules=rules, prods=prods, decls=decls, opts=opts)
 
 
+def long_pair():
+    """a production with eleven symbols: $10 and $11 (not $1 followed by a digit), a nullable rule
+    in the middle and at the end"""
+    return dict(id="plong", kind="grmtools", toks=["a", "b"], rules=["S", "A"],
+                prods={"S": [["a", "b", "A", "b", "a", "b", "a", "b", "a", "b", "A"], ["b"]], "A": [["a", "a"], []]},
+                decls=[], opts=dict(recoverer="cpctplus", sformat="variable", edition="2021", vis="private", via_header=False,
+                                    case_insensitive=False, lex_header=False))
+
+
 def fix_pair(p):
     """keep only tokens the productions use (the lexer must not define others) and declarations
     about them"""
@@ -529,7 +538,7 @@ def main(pid, tier, replay=None):
     core.build_harness()
     n = 160 if tier == "thorough" else 8
     pairs = [gen_pair(rng, i) for i in range(2 * n)]
-    pairs = buildable([fix_pair(p) for p in pairs], res.wd)[:n]
+    pairs = [long_pair()] + buildable([fix_pair(p) for p in pairs], res.wd)[:n - 1]
     inputs = {p["id"]: gen_inputs(p, rng, 80 if tier == "thorough" else 28) for p in pairs}
     d = os.path.join(res.wd, "ctgen")
     lexcases = lex_cases(rng, tier == "thorough")
